@@ -363,7 +363,7 @@ PROTO_ST = st.one_of(_COMMON, _COMMON, _COMMON, st.integers(0, 255))
 def ace_st(draw, platform: str = "ios", version: str = "0", kmax: int = 4, groups=False, members=True,
            empty_sets=False, opaque=False, seq=True, noise=True, established=True, multi=True,
            neq_multi=True, protos=None):
-    proto = draw(protos or PROTO_ST)
+    proto = draw(PROTO_ST if protos is None else protos)
     rec = {"seq": 0, "action": draw(st.sampled_from(["permit", "permit", "deny"])), "proto": proto,
            "pn": draw(st.sampled_from([-1, 0, 0, 1])),
            "src": draw(addr_st(kmax, groups, members)), "dst": draw(addr_st(kmax, groups, members)),
@@ -621,10 +621,10 @@ def acl_kwargs(case) -> dict:
 @st.composite
 def acl_st(draw, platform=None, min_items=0, max_items=12, kmax=3, groups=False, members=True, seqs=True,
            headings=True, group_by=True, noise=False, native=True, neq_multi=True, multi=True, empty_sets=False,
-           dup_headings=False, established=True, opaque=False, indent=True):
+           dup_headings=False, established=True, opaque=False, indent=True, protos=None):
     platform = platform or draw(st.sampled_from(["ios", "nxos"]))
     kw = dict(kmax=kmax, groups=groups, members=members, seq=False, noise=noise, empty_sets=empty_sets,
-              neq_multi=neq_multi, multi=multi, established=established, opaque=opaque)
+              neq_multi=neq_multi, multi=multi, established=established, opaque=opaque, protos=protos)
     pool = [draw(ace_st(platform, **kw)) for _ in range(draw(st.integers(1, 4)))]
     prefix = draw(st.sampled_from(["= ", "= ", "=== ", "#", "grp:"]))
     n = draw(st.integers(min_items, max_items))
